@@ -188,8 +188,8 @@ fn collect_case<N: ArrayLength, E: Elem, const MARK: bool>(entry: u8, c: usize, 
 
 macro_rules! for_ns {
     ($ctx:expr, [$($n:ty),*], [$($tn:ty),*], $N:ident => $body:block) => {
-        $( { type $N = $n; $body } )*
-        { $( { type $N = $tn; $body } )* }
+        $( { type $N = $n; if <$N as generic_array::typenum::Unsigned>::USIZE <= vcommon::maxn() { $body } } )*
+        { $( { type $N = $tn; if <$N as generic_array::typenum::Unsigned>::USIZE <= vcommon::maxn() { $body } } )* }
     };
 }
 
